@@ -88,3 +88,5 @@ GUARDS = [
   ("g_deque_zip_next_end2", F, "cc_deque_zip_iter_next", ("if", 1), ["index", "size"], RANGE),
 ]
 MACROS = []
+# (coq name, file, function, [parameters]): straight-line functions translated as a whole
+FUNCS = [("f_deque_upper_pow_two", "src/cc_deque.c", "upper_pow_two", ["n"])]
